@@ -181,6 +181,8 @@ func zzvSigC05(f sched.Found, msg string) string {
 type zzvRestOut struct {
 	panicked string
 	noReturn bool
+	size0    int64 // size of the counter file at rest (after sparse growth by the case, if any)
+	size     int64 // size after the process used it
 }
 
 // zzvUseDamaged writes data as the process's counter file, opens it with the
@@ -199,6 +201,9 @@ func zzvUseDamaged(base string, data []byte, names []string) (out zzvRestOut, af
 	}
 	if zzvRestAfterWrite != nil {
 		zzvRestAfterWrite(path)
+	}
+	if fi, err := os.Stat(path); err == nil {
+		out.size0 = fi.Size()
 	}
 	f := w.newProc()
 	var cs []*Counter
@@ -243,6 +248,9 @@ func zzvUseDamaged(base string, data []byte, names []string) (out zzvRestOut, af
 	if out.noReturn || out.panicked != "" {
 		// The process state may hold locks; do not touch it further.
 		w.procs = nil
+	}
+	if fi, err := os.Stat(path); err == nil {
+		out.size = fi.Size()
 	}
 	after = zzvReadCapped(path)
 	pend = map[string]uint64{}
@@ -328,6 +336,11 @@ func TestVerifC05(t *testing.T) {
 			class = "panic"
 			res.Violate("damaged-file-panic@"+out.panicked[strings.LastIndex(out.panicked, "@ ")+2:], "open/Add panics ("+out.panicked+") on a damaged file: "+desc, map[string]any{"case": desc})
 		default:
+			// The process and the other writer add a handful of records (five of 4 KiB among them): the file
+			// may grow by a few pages, not by orders of magnitude (a damaged limit must not be believed).
+			if out.size > out.size0+16*16384 && out.size > 32*16384 {
+				res.Violate("file-blown-up:"+zzvDamagedField(desc), fmt.Sprintf("the counter file grew from %d to %d bytes: %s", out.size0, out.size, desc), map[string]any{"case": desc})
+			}
 			afterSets := zzvValueSets(after)
 			for n, vs := range before {
 				isUsed := false
